@@ -161,6 +161,23 @@ func ghostOperand(f *Frame, st, old *State, idx []spec.Expr, args []spec.Expr) T
 		// kind of its Type
 		x.note("expression well-formedness (assumed for operands): the Value of a constant operand has the kind of its Type")
 		x.assumeGlobal(x.B.Eq(x.rkind(x.B.UF("rv_of", rvSort, vs.Fields[0].(*smt.Term), x.scalar(vs.Fields[1], nil))), x.B.BVC(k, 64)))
+		// reflect.Value.Int / Uint of a value of a narrow kind is the extension of that value
+		if bt, ok := gt.(*types.Basic); ok && (kindCategory(k) == "int" || kindCategory(k) == "uint") {
+			w := basicSort(bt).W
+			typT, payT := vs.Fields[0].(*smt.Term), x.scalar(vs.Fields[1], nil)
+			switch kindCategory(k) {
+			case "int":
+				if w < 64 {
+					v := x.B.UF("iface_int", I64, typT, payT)
+					x.assumeGlobal(x.B.Eq(v, x.B.SignExt(64-w, x.B.Extract(w-1, 0, v))))
+				}
+			case "uint":
+				if w < 64 {
+					v := x.B.UF("iface_uint", I64, typT, payT)
+					x.assumeGlobal(x.B.Eq(v, x.B.ZeroExt(64-w, x.B.Extract(w-1, 0, v))))
+				}
+			}
+		}
 		cv := x.ifaceConst(vs, k)
 		// constants are exact values (go/constant): a floating-point constant is never negative zero
 		nz := func(t *smt.Term) {
